@@ -166,8 +166,18 @@ def run(repo, procs=16):
     ctx = mp.get_context("spawn")
     with ctx.Pool(procs) as pool:
         res = pool.map(worker, jobs)
-    return {"space": f"all {len(fams)} template families (4 components incl. one whose slot sits in an {{% include %}}d partial, one whose template {{% extends %}} a base, one that passes its slot through; 4 fill bodies incl. a block inside the fill and included partials; 3 base layouts; every subset of overridden blocks with / without block.super) x 2 context modes, each next to its hand-flattened twin",
-            "evaluations": sum(r["n"] for r in res), "failures": [f for r in res for f in r["fails"]][:6], "exhaustive": True}
+    from harness.composition_scenarios import run as run_scenarios
+    scn = run_scenarios(repo)
+    allf = [f for r in res for f in r["fails"]] + scn["fails"]
+    unexpected = [f for f in allf if not f.get("known_finding")]
+    known = [f for f in allf if f.get("known_finding")]
+    firsts = []
+    for fid in sorted({f["known_finding"] for f in known}):
+        firsts += [f for f in known if f["known_finding"] == fid][:1]
+    return {"unexpected_failures": len(unexpected), "known_finding_failures": len(known), "failures": unexpected[:6] + firsts, "failures_shown": "unexpected first, then one witness per known finding",
+            "scenario_evaluations": scn["n"],
+            "space": f"all {len(fams)} template families (4 components incl. one whose slot sits in an {{% include %}}d partial, one whose template {{% extends %}} a base, one that passes its slot through; 4 fill bodies incl. a block inside the fill and included partials; 3 base layouts; every subset of overridden blocks with / without block.super) x 2 context modes, each next to its hand-flattened twin; plus 4 hand-written scenario groups ({scn['n']} renders incl. controls: a block name shared by page and component family, a block inside slot default content, block.super inside a fill of a nested component, a stock template used plainly after a component obtained it through get_template_name - the known findings F-C10b..e)",
+            "evaluations": sum(r["n"] for r in res) + scn["n"], "exhaustive": True}
 
 
 if __name__ == "__main__":
